@@ -46,9 +46,17 @@ def step (_ : Unit) (j : Json) : Except String (Unit × Drv.Out) := do
     let orc : SigOracle ← (match fldD f "oracle" with
       | .null => pure { pubkeyParses := false, sigParses := false, verifies := false }
       | oj => AuthD.oracleOf oj)
+    -- `Event.Verify` by the model alone (Lean SHA-256, Lean model of the signature library); the library's own
+    -- answers (asked by the harness on the raw bytes) are compared where the signature check is reached
     let ver : VerifyRes := match parsed with
-      | .ok (.event e) => verify (Sha256.hexHash (serialize e)) orc e
+      | .ok (.event e) => verifyFull e
       | _ => .error
+    match parsed with
+    | .ok (.event e) =>
+      if e.id == Sha256.hexHash (serialize e) && (hexDecode e.pubkey.toList).isSome && (hexDecode e.sig.toList).isSome
+          && sigOracleOf e != orc then
+        o := o.diff s!"frame {idx}: BIP-340: btcec says pubkeyParses={orc.pubkeyParses} sigParses={orc.sigParses} verifies={orc.verifies}, the Lean model of btcec differs: {(eventJ e).compress}"
+    | _ => pure ()
     let g := gate isText utf8ok jsonok text parsed ver
     o := o.tag (match g with | .forward _ => "frame.forward" | .notice n => s!"frame.reject.{(n.splitOn ":").head!}")
     match g with
